@@ -18,7 +18,13 @@ const OUT: u16 = 1024;
 pub const MASTER_SCENARIO_BASE: u64 = 1_000_000;
 
 fn replay_j(a: &ShardArgs, idx: u64) -> J {
-    J::obj(vec![("check", J::s("c01")), ("seed", J::U(a.seed)), ("shard", J::U(a.shard)), ("nshards", J::U(a.nshards)), ("scenario", J::U(MASTER_SCENARIO_BASE + idx))])
+    J::obj(vec![
+        ("check", J::s("c01")),
+        ("seed", J::U(a.seed)),
+        ("shard", J::U(a.shard)),
+        ("nshards", J::U(a.nshards)),
+        ("scenario", J::U(MASTER_SCENARIO_BASE + idx)),
+    ])
 }
 
 fn panics(a: &ShardArgs, idx: u64, hist: &[String]) -> bool {
@@ -26,9 +32,29 @@ fn panics(a: &ShardArgs, idx: u64, hist: &[String]) -> bool {
     let mut any = false;
     for p in ps {
         if p.message.starts_with("verif: spin") {
-            out::violation(P, "C01.spin", "master", J::obj(vec![("why", J::s(p.message.clone())), ("history", J::arr(hist.iter().rev().take(16).rev().cloned()))]), replay_j(a, idx));
+            out::violation(
+                P,
+                "C01.spin",
+                "master",
+                J::obj(vec![
+                    ("why", J::s(p.message.clone())),
+                    ("history", J::arr(hist.iter().rev().take(16).rev().cloned())),
+                ]),
+                replay_j(a, idx),
+            );
         } else {
-            out::violation(P, "C01.panic", &norm_location(&p.location), J::obj(vec![("message", J::s(p.message.clone())), ("location", J::s(p.location.clone())), ("context", J::s("master session")), ("history", J::arr(hist.iter().rev().take(16).rev().cloned()))]), replay_j(a, idx));
+            out::violation(
+                P,
+                "C01.panic",
+                &norm_location(&p.location),
+                J::obj(vec![
+                    ("message", J::s(p.message.clone())),
+                    ("location", J::s(p.location.clone())),
+                    ("context", J::s("master session")),
+                    ("history", J::arr(hist.iter().rev().take(16).rev().cloned())),
+                ]),
+                replay_j(a, idx),
+            );
         }
         any = true;
     }
@@ -40,7 +66,16 @@ fn hostile_response(r: &mut Rng, max: usize, seq: Option<u8>) -> Vec<u8> {
     if r.chance(1, 8) {
         // file objects: any variation, count and length octets right or wrong, random inner bytes
         let inner = r.range(0, 40) as usize;
-        let mut f = vec![0xC0 | seq.unwrap_or(0), ra::F_RESPONSE, 0, 0, 70, *r.pick(&[2u8, 3, 4, 5, 6, 7, 8, 1, 9]), 0x5B, *r.pick(&[1u8, 1, 1, 0, 2])];
+        let mut f = vec![
+            0xC0 | seq.unwrap_or(0),
+            ra::F_RESPONSE,
+            0,
+            0,
+            70,
+            *r.pick(&[2u8, 3, 4, 5, 6, 7, 8, 1, 9]),
+            0x5B,
+            *r.pick(&[1u8, 1, 1, 0, 2]),
+        ];
         let declared = match r.below(4) {
             0 => r.u16(),
             1 => inner as u16 + 1,
@@ -84,7 +119,11 @@ async fn scenario(a: &ShardArgs, idx: u64) {
     mc.discard = r.bool();
     let t_r = *r.pick(&[100u64, 1000]);
     let full = r.bool();
-    let mut ac = if full { AssocCfg::default_like(OUT) } else { AssocCfg::quiet(OUT) };
+    let mut ac = if full {
+        AssocCfg::default_like(OUT)
+    } else {
+        AssocCfg::quiet(OUT)
+    };
     ac.response_timeout_ms = t_r;
     ac.retry_min_ms = 200;
     ac.retry_max_ms = 400;
@@ -96,40 +135,66 @@ async fn scenario(a: &ShardArgs, idx: u64) {
     let mut sim = MasterSim::start(mc.clone(), &[ac.clone()]).await;
     let mut hist: Vec<String> = vec![format!("{mc:?} {ac:?}")];
     let viol = |rule: &str, sig: &str, why: String, hist: &Vec<String>| {
-        out::violation(P, &format!("C01.{rule}"), sig, J::obj(vec![("why", J::s(why)), ("history", J::arr(hist.iter().rev().take(20).rev().cloned()))]), replay_j(a, idx));
+        out::violation(
+            P,
+            &format!("C01.{rule}"),
+            sig,
+            J::obj(vec![
+                ("why", J::s(why)),
+                ("history", J::arr(hist.iter().rev().take(20).rev().cloned())),
+            ]),
+            replay_j(a, idx),
+        );
     };
     // ---- answer faithfully for a while to reach a state
     let mut last_seq: Option<u8> = None;
-    let serve = |sim: &mut MasterSim, last_seq: &mut Option<u8>, answer: bool, multi: bool| -> usize {
-        let mut n = 0;
-        for x in sim.collect() {
-            match x {
-                Rx::Fragment { bytes, .. } if !(bytes.len() == 2 && bytes[1] == ra::F_CONFIRM) => {
-                    n += 1;
-                    let seq = bytes[0] & 15;
-                    *last_seq = Some(seq);
-                    if answer {
-                        let rsp = match bytes[1] {
-                            ra::F_READ if multi => ra::B::response(ra::FIR | ra::CON | seq, false, 0, 0).range8(30, 1, 0, 0, &[1, 7, 0, 0, 0]).done(),
-                            ra::F_READ => ra::B::response(ra::FIR | ra::FIN | seq, false, 0, 0).range8(30, 1, 0, 0, &[1, 7, 0, 0, 0]).done(),
-                            ra::F_DELAY_MEASURE => ra::B::response(ra::FIR | ra::FIN | seq, false, 0, 0).count8(52, 2, 1, &[0, 0]).done(),
-                            ra::F_SELECT | ra::F_OPERATE | ra::F_DIRECT_OPERATE => ra::B::response(ra::FIR | ra::FIN | seq, false, 0, 0).raw(&bytes[2..]).done(),
-                            _ => ra::B::response(ra::FIR | ra::FIN | seq, false, 0, 0).done(),
-                        };
-                        sim.send_from(OUT, &rsp);
+    let serve =
+        |sim: &mut MasterSim, last_seq: &mut Option<u8>, answer: bool, multi: bool| -> usize {
+            let mut n = 0;
+            for x in sim.collect() {
+                match x {
+                    Rx::Fragment { bytes, .. }
+                        if !(bytes.len() == 2 && bytes[1] == ra::F_CONFIRM) =>
+                    {
+                        n += 1;
+                        let seq = bytes[0] & 15;
+                        *last_seq = Some(seq);
+                        if answer {
+                            let rsp = match bytes[1] {
+                                ra::F_READ if multi => {
+                                    ra::B::response(ra::FIR | ra::CON | seq, false, 0, 0)
+                                        .range8(30, 1, 0, 0, &[1, 7, 0, 0, 0])
+                                        .done()
+                                }
+                                ra::F_READ => ra::B::response(ra::FIR | ra::FIN | seq, false, 0, 0)
+                                    .range8(30, 1, 0, 0, &[1, 7, 0, 0, 0])
+                                    .done(),
+                                ra::F_DELAY_MEASURE => {
+                                    ra::B::response(ra::FIR | ra::FIN | seq, false, 0, 0)
+                                        .count8(52, 2, 1, &[0, 0])
+                                        .done()
+                                }
+                                ra::F_SELECT | ra::F_OPERATE | ra::F_DIRECT_OPERATE => {
+                                    ra::B::response(ra::FIR | ra::FIN | seq, false, 0, 0)
+                                        .raw(&bytes[2..])
+                                        .done()
+                                }
+                                _ => ra::B::response(ra::FIR | ra::FIN | seq, false, 0, 0).done(),
+                            };
+                            sim.send_from(OUT, &rsp);
+                        }
                     }
-                }
-                Rx::Link { frame, .. } if frame.ctrl & 0x4F == rl::F_REQUEST_LINK_STATUS => {
-                    n += 1;
-                    if answer {
-                        sim.send_link(OUT, rl::F_LINK_STATUS);
+                    Rx::Link { frame, .. } if frame.ctrl & 0x4F == rl::F_REQUEST_LINK_STATUS => {
+                        n += 1;
+                        if answer {
+                            sim.send_link(OUT, rl::F_LINK_STATUS);
+                        }
                     }
+                    _ => {}
                 }
-                _ => {}
             }
-        }
-        n
-    };
+            n
+        };
     let state = match r.below(7) {
         0 => {
             // start-up completed, idle
@@ -187,7 +252,12 @@ async fn scenario(a: &ShardArgs, idx: u64) {
                 }
                 settle().await;
             }
-            let objs = vec![(r.below(5) as u8, r.below(20) as u16, r.bool(), r.below(1000) as u32)];
+            let objs = vec![(
+                r.below(5) as u8,
+                r.below(20) as u16,
+                r.bool(),
+                r.below(1000) as u32,
+            )];
             sim.submit(0, UserReq::Command(true, objs));
             settle().await;
             if r.bool() {
@@ -206,7 +276,14 @@ async fn scenario(a: &ShardArgs, idx: u64) {
                 settle().await;
             }
             // a file transfer: OPEN outstanding, or OPEN answered and the first block outstanding
-            sim.submit(0, if r.bool() { UserReq::ReadFile(64) } else { UserReq::GetFileInfo });
+            sim.submit(
+                0,
+                if r.bool() {
+                    UserReq::ReadFile(64)
+                } else {
+                    UserReq::GetFileInfo
+                },
+            );
             settle().await;
             if r.bool() {
                 for x in sim.collect() {
@@ -221,7 +298,12 @@ async fn scenario(a: &ShardArgs, idx: u64) {
                             let mut b = vec![70, 4, 0x5B, 1];
                             b.extend_from_slice(&(o.len() as u16).to_le_bytes());
                             b.extend(o);
-                            sim.send_from(OUT, &ra::B::response(ra::FIR | ra::FIN | (bytes[0] & 15), false, 0, 0).raw(&b).done());
+                            sim.send_from(
+                                OUT,
+                                &ra::B::response(ra::FIR | ra::FIN | (bytes[0] & 15), false, 0, 0)
+                                    .raw(&b)
+                                    .done(),
+                            );
                             settle().await;
                         }
                     }
@@ -237,7 +319,17 @@ async fn scenario(a: &ShardArgs, idx: u64) {
                 }
                 settle().await;
             }
-            sim.submit(0, r.pick(&[UserReq::TimeSync(0), UserReq::TimeSync(1), UserReq::LinkStatus, UserReq::ColdRestart, UserReq::WriteDeadBands(vec![(1, 2)])]).clone());
+            sim.submit(
+                0,
+                r.pick(&[
+                    UserReq::TimeSync(0),
+                    UserReq::TimeSync(1),
+                    UserReq::LinkStatus,
+                    UserReq::ColdRestart,
+                    UserReq::WriteDeadBands(vec![(1, 2)]),
+                ])
+                .clone(),
+            );
             settle().await;
             serve(&mut sim, &mut last_seq, false, false);
             "non-read-task-awaiting-reply"
@@ -263,7 +355,9 @@ async fn scenario(a: &ShardArgs, idx: u64) {
                     let body = hostile_response(&mut r, 200, last_seq);
                     let mut seg = vec![0xC0 | (r.u8() & 0x3F)];
                     seg.extend(body);
-                    let mut fr = rl::Frame::new(0x44, mc.master_addr, OUT, &seg[..seg.len().min(250)]).encode();
+                    let mut fr =
+                        rl::Frame::new(0x44, mc.master_addr, OUT, &seg[..seg.len().min(250)])
+                            .encode();
                     let k = r.usize_below(fr.len());
                     fr[k] ^= 1 << r.below(8);
                     bytes = fr;
@@ -271,7 +365,15 @@ async fn scenario(a: &ShardArgs, idx: u64) {
                 2 => {
                     for _ in 0..r.range(1, 6) {
                         let len = *r.pick(&[0usize, 1, 5, 250]);
-                        bytes.extend(rl::Frame::new(r.u8(), *r.pick(&[mc.master_addr, 0xFFFF, 0xFFFC, 3]), *r.pick(&[OUT, 0xFFFF, 0xFFFC, 7]), &r.bytes(len)).encode());
+                        bytes.extend(
+                            rl::Frame::new(
+                                r.u8(),
+                                *r.pick(&[mc.master_addr, 0xFFFF, 0xFFFC, 3]),
+                                *r.pick(&[OUT, 0xFFFF, 0xFFFC, 7]),
+                                &r.bytes(len),
+                            )
+                            .encode(),
+                        );
                     }
                 }
                 _ => {
@@ -291,11 +393,24 @@ async fn scenario(a: &ShardArgs, idx: u64) {
                 sim.pipe.push(c);
             }
         } else {
-            let max = if r.chance(1, 4) { mc.rx } else { *r.pick(&[30usize, 249, 600]) };
+            let max = if r.chance(1, 4) {
+                mc.rx
+            } else {
+                *r.pick(&[30usize, 249, 600])
+            };
             let frag = hostile_response(&mut r, max, last_seq);
             let src = if r.chance(1, 8) { 7 } else { OUT };
-            let dest = if r.chance(1, 10) { 0xFFFD + r.below(3) as u16 } else { mc.master_addr };
-            label = format!("fragment/f{}/{}B {}", frag.get(1).copied().unwrap_or(0), frag.len(), hex(&frag[..frag.len().min(24)]));
+            let dest = if r.chance(1, 10) {
+                0xFFFD + r.below(3) as u16
+            } else {
+                mc.master_addr
+            };
+            label = format!(
+                "fragment/f{}/{}B {}",
+                frag.get(1).copied().unwrap_or(0),
+                frag.len(),
+                hex(&frag[..frag.len().min(24)])
+            );
             let mut tseq = sim.tseq;
             let bytes = encode_fragment(false, dest, src, &frag, &mut tseq);
             sim.tseq = tseq;
@@ -309,7 +424,12 @@ async fn scenario(a: &ShardArgs, idx: u64) {
         let ex0 = settle_exhausted();
         settle().await;
         if settle_exhausted() > ex0 {
-            viol("spin", state, "master did not become quiescent".into(), &hist);
+            viol(
+                "spin",
+                state,
+                "master did not become quiescent".into(),
+                &hist,
+            );
             break;
         }
         sim.advance(r.range(0, 60)).await;
@@ -320,21 +440,42 @@ async fn scenario(a: &ShardArgs, idx: u64) {
         } else {
             let _ = sim.collect();
         }
-        out::distinct(&format!("master/{state}/{}/{}", label.split('/').take(2).collect::<Vec<_>>().join("/"), if mc.discard { "discard" } else { "close" }));
+        out::distinct(&format!(
+            "master/{state}/{}/{}",
+            label.split('/').take(2).collect::<Vec<_>>().join("/"),
+            if mc.discard { "discard" } else { "close" }
+        ));
         if panics(a, idx, &hist) {
             break;
         }
         if sim.pipe.dropped() {
             if mc.discard && !sim.task_finished() {
-                viol("session_ended_in_discard_mode", state, "the master session ended although the link error mode is Discard".into(), &hist);
+                viol(
+                    "session_ended_in_discard_mode",
+                    state,
+                    "the master session ended although the link error mode is Discard".into(),
+                    &hist,
+                );
             }
-            out::count(if framing_error { "master_close_mode_session_ended_on_framing_error" } else { "master_session_ended" }, 1);
+            out::count(
+                if framing_error {
+                    "master_close_mode_session_ended_on_framing_error"
+                } else {
+                    "master_session_ended"
+                },
+                1,
+            );
             sim.connect().await;
             let _ = sim.collect();
             last_seq = None;
             hist.push("(session had ended: new connection)".into());
         } else if framing_error && !mc.discard {
-            viol("close_mode_no_error", state, "framing error in Close mode did not end the master session".into(), &hist);
+            viol(
+                "close_mode_no_error",
+                state,
+                "framing error in Close mode did not end the master session".into(),
+                &hist,
+            );
         }
     }
     if sim.task_finished() {
@@ -369,9 +510,18 @@ async fn scenario(a: &ShardArgs, idx: u64) {
                 if !(bytes.len() == 2 && bytes[1] == ra::F_CONFIRM) {
                     last_seq = Some(bytes[0] & 15);
                 }
-                if bytes.len() >= 9 && bytes[1] == ra::F_READ && bytes[2] == 30 && bytes[3] == 2 && bytes[5] == 0x61 && bytes[6] == 0x1E {
+                if bytes.len() >= 9
+                    && bytes[1] == ra::F_READ
+                    && bytes[2] == 30
+                    && bytes[3] == 2
+                    && bytes[5] == 0x61
+                    && bytes[6] == 0x1E
+                {
                     probe_sent_at = Some(t_ms);
-                    sim.send_from(OUT, &ra::B::response(ra::FIR | ra::FIN | (bytes[0] & 15), false, 0, 0).done());
+                    sim.send_from(
+                        OUT,
+                        &ra::B::response(ra::FIR | ra::FIN | (bytes[0] & 15), false, 0, 0).done(),
+                    );
                     settle().await;
                 }
             }
@@ -380,7 +530,12 @@ async fn scenario(a: &ShardArgs, idx: u64) {
             hist.push(format!("probe result {text}"));
             done = true;
             if probe_sent_at.is_some() && !text.starts_with("Ok") {
-                viol("probe_failed", state, format!("the probe READ was answered but read() returned {text}"), &hist);
+                viol(
+                    "probe_failed",
+                    state,
+                    format!("the probe READ was answered but read() returned {text}"),
+                    &hist,
+                );
             }
             break;
         }
@@ -389,13 +544,19 @@ async fn scenario(a: &ShardArgs, idx: u64) {
             0 => {}
             1 => {
                 unsol_seq = (unsol_seq + 1) & 15;
-                sim.send_from(OUT, &ra::B::response(ra::FIR | ra::FIN | ra::UNS | unsol_seq, true, 0, 0).done());
+                sim.send_from(
+                    OUT,
+                    &ra::B::response(ra::FIR | ra::FIN | ra::UNS | unsol_seq, true, 0, 0).done(),
+                );
             }
             2 => sim.send_link(OUT, rl::F_LINK_STATUS),
             _ => {
                 // a solicited response that never matches the outstanding sequence number
                 let s = last_seq.map(|s| (s + 8) & 15).unwrap_or(3);
-                sim.send_from(OUT, &ra::B::response(ra::FIR | ra::FIN | s, false, 0, 0).done());
+                sim.send_from(
+                    OUT,
+                    &ra::B::response(ra::FIR | ra::FIN | s, false, 0, 0).done(),
+                );
             }
         }
         settle().await;
@@ -410,7 +571,12 @@ async fn scenario(a: &ShardArgs, idx: u64) {
         if probe_sent_at.is_none() {
             viol("wedged_master", &format!("{state}/chatter{chatter_kind}"), format!("a user READ submitted after the hostile input was not sent within {bound} virtual ms while the peer kept sending ignorable traffic"), &hist);
         } else {
-            viol("probe_unresolved", state, "the probe READ was sent and answered but read() never returned".into(), &hist);
+            viol(
+                "probe_unresolved",
+                state,
+                "the probe READ was sent and answered but read() never returned".into(),
+                &hist,
+            );
         }
     } else {
         out::count("master_probe_read_ok", 1);
